@@ -9,7 +9,7 @@ Two target styles: class groups (add_class_arguments) and subclass arguments (ad
 """
 import itertools
 import sys
-from typing import Any
+from typing import Any, Optional
 
 from bounded.common import Harness, outcome, quiet
 
@@ -79,7 +79,78 @@ def main():
                             if style == "subclass" and (kind == "attr" or lorder_name == "rev" or gorder != group_orders[0] and gorder != group_orders[-1]):
                                 continue
                             run_case(h, classes, K, edges, ledges, gorder, lorder_name, style, kind)
+    extra_cases(h)
     sys.exit(h.finish(exhaustive=True, bound=f"K <= {Kmax} class groups; all edge sets (<= 4 links when K = 4); all group declaration orders; 2 link orders"))
+
+
+class Tok:
+    def __init__(self, limit: "Optional[int]" = None, size: int = 3):
+        self.limit = limit
+        self.size = size
+        LOG.append(self)
+
+
+class Dec:
+    def __init__(self, limit: "Optional[int]" = 16, width: int = 1):
+        self.limit = limit
+        self.width = width
+        LOG.append(self)
+
+
+def extra_cases(h):
+    """(1) a linked source attribute whose value is None / 0 / '' still feeds the target;
+    (2) a link added *after* a first instantiate_classes is honoured by the next one (nothing cached on the parser)."""
+    from typing import Optional
+    Tok.__init__.__annotations__["limit"] = Optional[int]
+    Dec.__init__.__annotations__["limit"] = Optional[int]
+    for style in ("group", "subclass"):
+        for given, want in ((None, None), (0, 0), (32, 32)):
+            parser = ArgumentParser(exit_on_error=False)
+            if style == "group":
+                parser.add_class_arguments(Tok, "tok")
+                parser.add_class_arguments(Dec, "dec")
+                tgt = "dec.limit"
+            else:
+                parser.add_subclass_arguments(Tok, "tok", default={"class_path": f"{__name__}.Tok"})
+                parser.add_subclass_arguments(Dec, "dec", default={"class_path": f"{__name__}.Dec"})
+                tgt = "dec.init_args.limit"
+            parser.link_arguments("tok.limit", tgt, apply_on="instantiate")
+            del LOG[:]
+            argv = [] if given is None else [f"--tok.limit={given}" if style == "group" else f"--tok.init_args.limit={given}"]
+            res = outcome(lambda: parser.instantiate_classes(parser.parse_args(argv)))
+            key = f"links:attr-value:{style}:tok.limit={given!r}"
+            if res[0] != "ok":
+                h.check(False, key + ":failed", f"parse/instantiate failed: {res}", None)
+                continue
+            got = res[1]["dec"].limit
+            h.check(got == want and type(got) is type(want), key, f"dec.limit = {got!r}, the source attribute tok.limit is {want!r}", {"style": style, "argv": argv})
+            h.nontrivial(key)
+    # (2) history: instantiate, add a link whose source is declared after its target, instantiate again
+    classes = make_classes(3)
+    for first, second in itertools.permutations([(0, 1), (2, 0), (2, 1), (1, 0)], 2):
+        if closes_cycle([first], second) or first == second:
+            continue
+        parser = ArgumentParser(exit_on_error=False)
+        for g in range(3):
+            parser.add_class_arguments(classes[g], f"g{g}")
+        key = f"links:history:{first[0]}>{first[1]}:then:{second[0]}>{second[1]}"
+        a, b = first
+        parser.link_arguments(f"g{a}", f"g{b}.from_{a}", apply_on="instantiate")
+        r1 = outcome(lambda: parser.instantiate_classes(parser.parse_args([])))
+        a2, b2 = second
+        r_add = outcome(parser.link_arguments, f"g{a2}", f"g{b2}.from_{a2}", apply_on="instantiate")
+        if r1[0] != "ok" or r_add[0] != "ok":
+            h.check(False, key + ":failed", f"setup failed: {r1[:2]} {r_add[:2]}", None)
+            continue
+        del LOG[:]
+        r2 = outcome(lambda: parser.instantiate_classes(parser.parse_args([])))
+        if r2[0] != "ok":
+            h.check(False, key + ":failed2", f"second instantiate failed: {r2[:2]}", None)
+            continue
+        pos = {type(o).__name__: i for i, o in enumerate(LOG)}
+        ok = all(pos[f"C{x}"] < pos[f"C{y}"] for x, y in (first, second)) and getattr(r2[1][f"g{b2}"], f"from_{a2}") is r2[1][f"g{a2}"]
+        h.check(ok, key, f"after adding the second link the construction order is {[type(o).__name__ for o in LOG]}", {"links": [first, second]})
+        h.nontrivial(key)
 
 
 def run_case(h, classes, K, edges, ledges, gorder, lorder_name, style, kind):
